@@ -86,6 +86,23 @@ func ruleEUse(c *Ctx, specs []entrySpec, min int) {
 						c.OK("E-use", key, call.Pos(), "discarded in so many words: "+why)
 						continue
 					}
+					// the same call moved into a helper a later change extracted: reasoned for every function it
+					// now runs on behalf of
+					if inlineHelper != nil && inlineHelper(fn) {
+						all, why := true, ""
+						afs := attributedTo(c.P, fn)
+						for _, af := range afs {
+							w, ok := discardOK[fmt.Sprintf("%s -> %s", funcName(af), calleeLabel(&call.Call))]
+							if !ok {
+								all = false
+							}
+							why = w
+						}
+						if all && len(afs) > 0 {
+							c.OK("E-use", key, call.Pos(), "discarded in so many words (in a helper of the function the reason was written for): "+why)
+							continue
+						}
+					}
 					c.Fail("E-use", key, call.Pos(), "the error returned by "+calleeLabel(&call.Call)+" is discarded with _ and the call is not one known to be unable to fail")
 					continue
 				}
